@@ -147,11 +147,14 @@ struct MImpl
     const xv_op* op;
 };
 
+static const double BLOCK_CPU_LIMIT_S = 1.0;
+
 struct FnStats
 {
     std::atomic<uint64_t> points { 0 }, judged { 0 }, skipped { 0 }, slow { 0 }, mpfr_checked { 0 }, disagreements { 0 }, aborted_calls { 0 };
     std::atomic<uint64_t> maxerr_bits { 0 }; // double bits of the maximum accepted error (monotone for positive doubles)
     std::atomic<uint64_t> maxticks { 0 };
+    std::atomic<uint64_t> max_block_cpu_us { 0 }; // largest CPU time one block of kernel calls took on one architecture
     void upd_maxerr(double e)
     {
         uint64_t b;
@@ -447,6 +450,8 @@ void MathExplorer::run_fn_space(const MFun& f, const Space<T>& S, const std::vec
             H.first = to_bits<T>(a[0]);
             H.last = to_bits<T>(a[n - 1]);
             H.t0 = now_s();
+            timespec c0;
+            clock_gettime(CLOCK_THREAD_CPUTIME_ID, &c0);
             size_t start = 0;
             const size_t npad = (n + L - 1) / L * L;
             while (start < npad)
@@ -467,6 +472,46 @@ void MathExplorer::run_fn_space(const MFun& f, const Space<T>& S, const std::vec
             }
             H.t0 = 0;
             (void)in;
+            {
+                // C14 without a hook: the CPU time of this thread over the block (16384 / lanes kernel calls; a few
+                // milliseconds for every function of the library). A loop or recursion whose trip count follows the
+                // magnitude of an argument makes a block of huge arguments take seconds; thread CPU time does not
+                // count the time this thread was descheduled, so machine load does not matter.
+                timespec c1;
+                clock_gettime(CLOCK_THREAD_CPUTIME_ID, &c1);
+                const double cpu = (double)(c1.tv_sec - c0.tv_sec) + 1e-9 * (double)(c1.tv_nsec - c0.tv_nsec);
+                const uint64_t us = (uint64_t)(cpu * 1e6);
+                uint64_t cur = ST.max_block_cpu_us.load();
+                while (us > cur && !ST.max_block_cpu_us.compare_exchange_weak(cur, us))
+                {
+                }
+                if (mode_ticks && cpu > BLOCK_CPU_LIMIT_S)
+                {
+                    Violation v;
+                    v.prop = prop;
+                    v.op = f.name;
+                    v.arch = arch;
+                    v.elem = elem;
+                    v.lanes = (int)L;
+                    v.lane = 0;
+                    v.nin = f.arity;
+                    v.out_type = elem;
+                    for (int k = 0; k < f.arity; ++k)
+                    {
+                        v.in_t[k] = elem;
+                        for (size_t l = 0; l < L; ++l)
+                            v.in[k].push_back(to_bits<T>((k == 0 ? a : b)[l]));
+                    }
+                    v.oracle = "CPU time of one block of kernel calls";
+                    char buf[200];
+                    snprintf(buf, sizeof buf, "%zu calls (arguments %s .. %s) took %.2f s of CPU time; the limit is %.1f s and every block of the unchanged library takes a few milliseconds", npad / L, hex(to_bits<T>(a[0]), sizeof(T)).c_str(), hex(to_bits<T>(a[n - 1]), sizeof(T)).c_str(), cpu, BLOCK_CPU_LIMIT_S);
+                    v.note = buf;
+                    v.expected = (uint64_t)(BLOCK_CPU_LIMIT_S * 1e6);
+                    v.observed = us;
+                    ++unk[ii];
+                    record(std::move(v), "");
+                }
+            }
             const T* y = (const T*)out[f.out_slot];
             uint64_t judged = 0, skipped = 0;
             auto is_aborted = [&](size_t e)
@@ -1864,6 +1909,7 @@ int main(int argc, char** argv)
         j.k("reference_disagreements").u(kv.second->disagreements);
         j.k("aborted_calls").u(kv.second->aborted_calls);
         j.k("max_loop_ticks").u(kv.second->maxticks);
+        j.k("max_block_cpu_us").u(kv.second->max_block_cpu_us);
         j.eobj();
     }
     j.eobj();
